@@ -494,6 +494,11 @@ pub struct Layout {
     /// write the `<row>` elements in a shuffled order (each then carries its `r`): schema-valid, and what the readers
     /// must not depend on. Off in `plain()` and in `random()`; set by the callers whose oracle is order-free.
     pub shuffle_rows: bool,
+    /// chance (per file, then element by element) of legal variation inside `xl/_rels/workbook.xml.rels`: attributes of
+    /// `<Relationship>` in another order, `TargetMode="Internal"`, a namespace prefix on the elements, a further
+    /// relationship (theme) in front of / between the sheets', white space between the elements. Private stream,
+    /// `plain()` = 0. (C01 container glue)
+    pub pct_rels_noise: u8,
 }
 
 impl Layout {
@@ -529,6 +534,7 @@ impl Layout {
             row_style_count: 0,
             rel_decl: RelDecl::Workbook,
             shuffle_rows: false,
+            pct_rels_noise: 0,
         }
     }
     /// every knob randomised (legal variations only)
@@ -568,18 +574,19 @@ impl Layout {
             row_style_count: 0,
             rel_decl: *own.pick(&[RelDecl::Workbook, RelDecl::Workbook, RelDecl::Sheets, RelDecl::Sheet, RelDecl::Split]),
             shuffle_rows: false,
+            pct_rels_noise: *own.pick(&[0u8, 0, 50, 100]),
         }
     }
     /// short description for counters / failure signatures
     pub fn describe(&self) -> String {
         format!(
-            "pre={} rel={} case={:?} target={:?} zip={:?} dim={:?} rowref={} cellref={} lower={} swap={} dedupe={} rich={} emptysi={} tn={} selfclose={} ws={} noise={} blank={} attrshuffle={} attrextra={} tnstyled={} xfomit={} stylesnoise={} rowstyle={} reldecl={:?}",
+            "pre={} rel={} case={:?} target={:?} zip={:?} dim={:?} rowref={} cellref={} lower={} swap={} dedupe={} rich={} emptysi={} tn={} selfclose={} ws={} noise={} blank={} attrshuffle={} attrextra={} tnstyled={} xfomit={} stylesnoise={} rowstyle={} reldecl={:?} relsnoise={}",
             if self.prefix.is_empty() { "-" } else { &self.prefix },
             self.rel_prefix, self.part_case, self.target, self.compression, self.dimension, self.pct_row_ref,
             self.pct_cell_ref, self.pct_lower_ref, self.pct_swap_string_store, self.pct_sst_dedupe, self.pct_rich,
             self.pct_empty_si, self.pct_t_n, self.pct_self_close, self.pct_whitespace, self.pct_noise, self.pct_write_blank,
             self.pct_attr_shuffle, self.pct_attr_extra, self.pct_t_n_styled, self.pct_xf_omit_general, self.pct_styles_noise,
-            self.pct_row_style, self.rel_decl
+            self.pct_row_style, self.rel_decl, self.pct_rels_noise
         )
     }
     fn q(&self, n: &str) -> String {
@@ -1057,6 +1064,39 @@ pub fn render_styles(book: &XlsxBook, l: &Layout) -> Vec<Ev> {
     out
 }
 
+/// events of `xl/_rels/workbook.xml.rels` for the relationships `(Id, Type, Target)` in this order
+pub fn render_rels(rel_list: &[(String, String, String)], l: &Layout) -> Vec<Ev> {
+    let mut srng = attr_rng(l, "xl/_rels/workbook.xml.rels");
+    let noise = roll(&mut srng, l.pct_rels_noise);
+    let pre = if noise && srng.chance(1, 3) { "pr:" } else { "" };
+    let mut out = vec![Ev::Start(
+        format!("{pre}Relationships"),
+        vec![(if pre.is_empty() { "xmlns".to_string() } else { "xmlns:pr".to_string() }, NS_PKG_REL.to_string())],
+    )];
+    let mut list: Vec<(String, String, String)> = rel_list.to_vec();
+    if noise && srng.chance(1, 2) {
+        // a further relationship somewhere among the others
+        let at = srng.below(list.len() as u64 + 1) as usize;
+        list.insert(at, ("rIdTheme".into(), format!("{}/theme", NS_REL), "theme/theme1.xml".into()));
+    }
+    for (id, typ, target) in &list {
+        if noise && srng.chance(1, 3) {
+            out.push(text("\n  "));
+        }
+        let mut attrs: Vec<(String, String)> = vec![("Id".into(), id.clone()), ("Type".into(), typ.clone()), ("Target".into(), target.clone())];
+        if noise {
+            if srng.chance(1, 2) {
+                attrs.push(("TargetMode".into(), "Internal".into()));
+            }
+            srng.shuffle(&mut attrs);
+        }
+        out.push(Ev::Start(format!("{pre}Relationship"), attrs));
+        out.push(Ev::End(format!("{pre}Relationship")));
+    }
+    out.push(Ev::End(format!("{pre}Relationships")));
+    out
+}
+
 fn part_name(canonical: &str, case: PartCase) -> String {
     match case {
         PartCase::Canonical => canonical.to_string(),
@@ -1096,6 +1136,8 @@ pub struct Built {
     pub workbook_events: Vec<Ev>,
     /// `(Id, Target)` of the sheet relationships in `xl/_rels/workbook.xml.rels`, in sheet order (C16)
     pub sheet_rels: Vec<(String, String)>,
+    /// events of `xl/_rels/workbook.xml.rels` as written (C01 container glue)
+    pub rels_events: Vec<Ev>,
 }
 
 impl XlsxBook {
@@ -1162,7 +1204,8 @@ impl XlsxBook {
             l.q("sheets"),
             if matches!(l.rel_decl, RelDecl::Sheets | RelDecl::Split) { vec![rel_ns.clone()] } else { vec![] },
         ));
-        let mut rels = format!("<?xml version=\"1.0\" encoding=\"UTF-8\" standalone=\"yes\"?>\n<Relationships xmlns=\"{}\">", NS_PKG_REL);
+        // (Id, Type, Target) of every relationship of xl/_rels/workbook.xml.rels, in file order
+        let mut rel_list: Vec<(String, String, String)> = vec![];
         let mut sheet_rels: Vec<(String, String)> = vec![];
         for (i, sh) in self.sheets.iter().enumerate() {
             let mut attrs: Vec<(String, String)> = vec![("name".into(), sh.name.clone()), ("sheetId".into(), (i + 1).to_string())];
@@ -1197,7 +1240,7 @@ impl XlsxBook {
                 "macrosheets" => "xlMacrosheet",
                 _ => "worksheet",
             };
-            rels.push_str(&format!("<Relationship Id=\"{}\" Type=\"{}/{}\" Target=\"{}\"/>", rid, NS_REL, typ, esc_attr(&target)));
+            rel_list.push((rid.clone(), format!("{}/{}", NS_REL, typ), target.clone()));
             sheet_rels.push((rid, target));
         }
         wb.push(end(&l.q("sheets")));
@@ -1267,9 +1310,10 @@ impl XlsxBook {
         }
         wb.push(end(&l.q("workbook")));
         let n = self.sheets.len();
-        rels.push_str(&format!("<Relationship Id=\"rId{}\" Type=\"{}/styles\" Target=\"styles.xml\"/>", n + 1, NS_REL));
-        rels.push_str(&format!("<Relationship Id=\"rId{}\" Type=\"{}/sharedStrings\" Target=\"sharedStrings.xml\"/>", n + 2, NS_REL));
-        rels.push_str("</Relationships>");
+        rel_list.push((format!("rId{}", n + 1), format!("{}/styles", NS_REL), "styles.xml".into()));
+        rel_list.push((format!("rId{}", n + 2), format!("{}/sharedStrings", NS_REL), "sharedStrings.xml".into()));
+        let rels_events = render_rels(&rel_list, l);
+        let rels = format!("<?xml version=\"1.0\" encoding=\"UTF-8\" standalone=\"yes\"?>\n{}", serialize(&rels_events, || true));
         parts.push(("xl/workbook.xml".into(), sc(&mut rng, &wb)));
         parts.push(("xl/_rels/workbook.xml.rels".into(), rels.into_bytes()));
         parts.extend(sheet_parts);
@@ -1296,7 +1340,7 @@ impl XlsxBook {
             .map(|(n, b)| (if n.starts_with("xl/") { part_name(&n, l.part_case) } else { n }, b))
             .collect();
         let bytes = zip_parts(&parts, l.compression, &mut rng);
-        Built { bytes, parts, sheet_events, sst_events, strings: sst.items, sheet_paths, workbook_events: wb, sheet_rels }
+        Built { bytes, parts, sheet_events, sst_events, strings: sst.items, sheet_paths, workbook_events: wb, sheet_rels, rels_events }
     }
 }
 
